@@ -301,8 +301,13 @@ def check(case):
     outputs = s['outputs'] if s['outputs'] is not None else sorted(sq)
     if s['outputs'] is not None:
         with case.clause('set_outputs'):
-            M.set_outputs(list(outputs))
-            case.equal(M.outputs(), list(outputs), 'outputs after set_outputs')
+            selection = list(outputs)
+            M.set_outputs(selection)
+            # the caller goes on using their list (sorts it, extends it for another model, clears it)
+            selection.reverse()
+            selection.append('not an output')
+            del selection[:]
+            case.equal(M.outputs(), list(outputs), 'outputs after set_outputs (and after the caller changed their list)')
             case.equal(M.n_outputs(), len(outputs), 'n_outputs after set_outputs')
         if 'set_outputs' not in case.checked:
             return
@@ -409,6 +414,19 @@ def check(case):
                 out = res
             case.close(np.asarray(out, dtype=float), want, rtol=1e-6, atol=1e-9,
                        what='outputs after the second fix_parameters call')
+
+    # a whole-number free vector typed as integers (list of Python ints, int array) is the same vector
+    with case.clause('integer_vector'):
+        th_i = theta.copy()
+        th_i[free] = np.maximum(1, np.round(theta[free]))
+        if obj.has_sensitivities():
+            obj.enable_sensitivities(False)
+        ref_i = np.real(sbmlgen.ref_simulate(ms, th_i, times, outputs, admin, events))
+        for label, arg in (('floats', th_i[free].copy()), ('a list of Python ints', [int(v) for v in th_i[free]]),
+                           ('an int array', th_i[free].astype(int))):
+            out = np.asarray(obj.simulate(arg, times.copy()), dtype=float)
+            case.close(out, ref_i, rtol=1e-6, atol=1e-9, what='outputs at a whole-number free vector given as %s (fixed '
+                                                              'values %s)' % (label, 'present' if len(free) < len(theta) else 'none'))
 
     # a copy taken after the model was simulated behaves like the model (same vector, and another one)
     with case.clause('copy_after_simulate'):
